@@ -233,18 +233,27 @@ def run_check(prop, tier, repo_root, only=None, verbose=False):
             return "discharged"
         return e["status"]
 
+    recheck_cache: dict = {}
+
     def recheck(fn_key, obname):
-        """second, unhurried attempt at one function (serial, three times the solver budgets) before an obligation that
-        was proved on the unchanged tree is reported as lost: a verdict must not depend on machine load"""
+        """second, unhurried attempt at one function (serial, twice the solver budgets, once per function) before an
+        obligation that was proved on the unchanged tree is reported as lost: a verdict must not depend on machine load"""
+        if fn_key in recheck_cache:
+            res = recheck_cache[fn_key]
+            if res["error"] or res["crash"]:
+                return "undecided"
+            e = res["obligations"].get(obname)
+            return e["status"] if e is not None else "undecided"
         from . import smt as _smt
         saved = (_smt.CVC5_TIMEOUT_S, _smt.FRESH_TIMEOUT_MS, _smt.FIRST_TIMEOUT_MS)
-        _smt.CVC5_TIMEOUT_S, _smt.FRESH_TIMEOUT_MS, _smt.FIRST_TIMEOUT_MS = saved[0] * 3, saved[1] * 3, saved[2] * 2
+        _smt.CVC5_TIMEOUT_S, _smt.FRESH_TIMEOUT_MS, _smt.FIRST_TIMEOUT_MS = saved[0] * 2, saved[1] * 2, saved[2]
         _smt.HARD.clear()
         try:
             res = _verify_one((repo_root, fn_key, [], prop))
             _finalize(res)
         finally:
             _smt.CVC5_TIMEOUT_S, _smt.FRESH_TIMEOUT_MS, _smt.FIRST_TIMEOUT_MS = saved
+        recheck_cache[fn_key] = res
         if res["error"] or res["crash"]:
             return "undecided"
         e = res["obligations"].get(obname)
